@@ -25,7 +25,7 @@ func (p *IdentityProvider) attributeQueryHandleFunc(w http.ResponseWriter, r *ht
 	var attrQuery *samlp.AttributeQueryType
 	var response *samlp.ResponseType
 
-	metadata, _, err := p.GetMetadata(r.Context())
+	_, aaMetadata, err := p.GetMetadata(r.Context())
 	if err != nil {
 		err := fmt.Errorf("failed to read idp metadata: %w", err)
 		logging.Error(err)
@@ -112,7 +112,7 @@ func (p *IdentityProvider) attributeQueryHandleFunc(w http.ResponseWriter, r *ht
 
 	// verify that destination in request is this IDP
 	checkerInstance.WithLogicStep(
-		func() error { err = verifyRequestDestinationOfAttrQuery(metadata, attrQuery); return err },
+		func() error { err = verifyRequestDestinationOfAttrQuery(aaMetadata, attrQuery); return err },
 		func() {
 			http.Error(w, fmt.Errorf("failed to verify request destination: %w", err).Error(), http.StatusInternalServerError)
 		},
